@@ -122,6 +122,31 @@ fn unary(c: &mut Collector, x: u64, nth_full: bool) {
     ck!("iter-order", seen.clone(), members.clone());
     let via_into: Vec<u8> = b.into_iter().map(|p| p.to_u8()).collect();
     ck!("into_iter", via_into, members.clone());
+    // the other Iterator methods must agree with repeated next(), from the start and after a prefix
+    // (they are default methods today; a specialised count/last/min/max/fold must keep agreeing)
+    for skip in [0usize, 1, members.len() / 2, members.len()] {
+        let skip = skip.min(members.len());
+        let mk = || {
+            let mut it = b.iter();
+            for _ in 0..skip {
+                it.next();
+            }
+            it
+        };
+        let rest = &members[skip..];
+        ck!("iter-count", mk().count(), rest.len());
+        ck!("iter-last", mk().last().map(|p| p.to_u8()), rest.last().copied());
+        ck!("iter-min", mk().min().map(|p| p.to_u8()), rest.first().copied());
+        ck!("iter-max", mk().max().map(|p| p.to_u8()), rest.last().copied());
+        ck!("iter-fold", mk().fold(0u64, |a, p| a | (1u64 << p.to_u8())), rest.iter().fold(0u64, |a, i| a | (1u64 << i)));
+        ck!("iter-size_hint", mk().size_hint(), (rest.len(), Some(rest.len())));
+        ck!("iter-collect-after-prefix", mk().map(|p| p.to_u8()).collect::<Vec<u8>>(), rest.to_vec());
+        let mut fused = mk();
+        for _ in 0..rest.len() {
+            fused.next();
+        }
+        ck!("iter-stays-exhausted", (fused.next().is_none(), fused.next().is_none(), fused.size_hint()), (true, true, (0, Some(0))));
+    }
     // collection from iterators
     let col: chess_bitboard::BitBoard = members.iter().map(|i| pos(*i)).collect();
     ck!("from_iter-squares", col.to_u64(), x);
